@@ -113,6 +113,12 @@ def installed():
     return _installed
 
 
+def budget_bulk(nbytes: int) -> int:
+    """The same allowance for calls that move a lot of data: 100 lines per byte for the first 64 KiB, 20 beyond (still far
+    above any byte-at-a-time implementation; keeps a genuinely stuck call on a multi-megabyte input detectable in seconds)."""
+    return 20000 + 100 * min(nbytes, 65536) + 20 * max(0, nbytes - 65536)
+
+
 def budget_for(nbytes: int) -> int:
     """Bounded progress: 20 000 + 100 lines per input byte (worst legitimate path measured at < 10 lines/byte)."""
     return 20000 + 100 * nbytes
